@@ -20,6 +20,8 @@ func init() {
 			ruleNoEarlyExit(c, "C01.7", "(*InjectorProviderCallStmt).generateChannelWaitStatement", "(*InjectorProviderCallStmt).buildArguments", "(*Graph).buildPoolStmtsSimple")
 			ruleClosedEmission(c, "C01.9")
 			rulePoolsAppendOnly(c, "C01.6")
+			ruleLaneIntegrity(c, "C01.6")
+			ruleEveryStmtEmittedInPlace(c, "C01.6")
 			coRun(c, "C01.8", coRace)
 		},
 		explanation: "GS (all generator inputs, emission discipline): inside every producer statement the wait is appended before the provider call and the close after it; done-channels are declared, awaited and closed under one predicate (truth tables over the guarding atoms, exhaustively enumerated); IsWait=false implies same pool or already-provided (exhaustive table over pool indices in {-1,0,1}); InjectorParam.Ref keeps the channel flag sticky; shared variables are assigned with = whenever the injector predeclares them; each dependency edge is recorded in both directions in one block, the topological counter is len(reverseEdges); every built pool is marked processed; argument/wait collection loops have no early exit. " +
@@ -44,6 +46,9 @@ func init() {
 			ruleFieldAccessSync(c, "C03.7")
 			ruleClosedEmission(c, "C03.8")
 			rulePoolsAppendOnly(c, "C03.7")
+			ruleLaneIntegrity(c, "C03.7")
+			ruleEveryStmtEmittedInPlace(c, "C03.5")
+			ruleCallerLaneChoice(c, "C03.7")
 			coRun(c, "C03.6", coTermination)
 		},
 		explanation: "GS: every producer kind closes exactly the channels the var block declares (one predicate, loops without early exit, hence one close per barrier); the emitted list is all eg.Go chains followed by the main thread, so no main-thread wait can precede a spawn; eg.Wait is appended before the normal return under the same predicate that declares the group; a chain is a single eg.Go(func() error {...; return nil}); a pool is a goroutine exactly when its first provider is Async, at every decision site; every built pool unblocks its dependants. " +
@@ -64,6 +69,10 @@ func init() {
 			ruleNoBreak(c, "C05.6", "(*Graph).findOptimalPool", "findOptimalPool: the backward scan of a candidate pool runs until it meets a dependency (reuse the pool) or an Async provider (try the next pool); it is never cut short, so an Async provider is not queued behind another Async provider that a sync provider happens to hide")
 			ruleClosedEmission(c, "C05.7")
 			rulePoolsAppendOnly(c, "C05.8")
+			ruleLaneIntegrity(c, "C05.8")
+			ruleSourcesSeededFirst(c, "C05.9")
+			ruleSchedulerReadsAsyncFlag(c, "C05.9")
+			ruleEveryStmtEmittedInPlace(c, "C05.2")
 			coRun(c, "C05.4", coParallel)
 		},
 		explanation: "Narrow claim. GS: goroutines are spawned before the main thread's first call; chains are wrapped in eg.Go, never inlined; a provider statement waits only for channels collected from its own arguments, so an input-free provider emits no wait; a pool runs as a goroutine exactly when its first provider is Async; the Async marker is propagated through every wrapper the parser unwraps (Bind, Async, nested); the backward scan of the pool heuristic is never cut short by a break. " +
@@ -86,6 +95,7 @@ func init() {
 			ruleErrorCheckTemplates(c, "C06.7")
 			ruleClosedEmission(c, "C06.8")
 			ruleHandlerDiscipline(c, "C06.9")
+			ruleWaitCheckedWhenFallible(c, "C06.10")
 			coRun(c, "C06.4", coErrors)
 		},
 		explanation: "GS: the error check is appended after the call and before the close (a failed provider never releases its dependants); a fallible call always gets a returning handler (handler is nil only when the injector has no error result, and the injector has one whenever a scheduled provider is fallible); classification of which error expression can reach which return context (provider error anywhere; ctx.Err() only inside goroutines); the wait discipline that keeps dependants behind their producers (IsWait table, sticky channel flag, guards). " +
@@ -105,7 +115,9 @@ func init() {
 			ruleParamsNamedFirst(c, "C07.5")
 			ruleClosedEmission(c, "C07.6")
 			ruleHandlerDiscipline(c, "C07.7")
+			ruleWaitCheckedWhenFallible(c, "C07.3")
 			ruleSameContextPredicate(c, "C07.4")
+			ruleTemplatesNotPatched(c, "C07.8")
 			coRun(c, "C07.2", coCancellation)
 		},
 		explanation: "GS: the wait flavour per context (select with ctx.Done() vs plain receive) as a truth table over 'a context exists' and 'a handler exists'; the Wait result is kept exactly when the injector has an error result; errgroup.WithContext receives the context parameter and the 'context exists' predicate is the same at both sites; injectContextArg runs on every Build path. " +
@@ -125,6 +137,8 @@ func init() {
 			ruleClosedEmission(c, "C08.5")
 			ruleHandlerDiscipline(c, "C08.6")
 			ruleSameContextPredicate(c, "C08.7")
+			ruleTemplatesNotPatched(c, "C08.8")
+			ruleCallerLaneChoice(c, "C08.9")
 			coRun(c, "C08.3", coLeaks)
 		},
 		explanation: "GS: every return template that can sit at injector level is either preceded by eg.Wait or emitted only without goroutines; goroutine bodies contain only escapable waits (their handler is the constant goroutine-level one, every wait gets its ctx.Done() case whenever some argument is a context, and the errgroup is derived from that context so a failure wakes the waiters). CO: for each early return of the 36 injectors, the goroutines that can still be parked on a barrier only the returning thread would lower.",
